@@ -16,6 +16,8 @@
      the two names — Absnfs/FsFrame.lean, FsRename.lean), the injectivity of the path encoding on the paths
      the server builds (Absnfs/PathLemmas.lean), and the byte-prefix test of InvalidatePrefix being the
      component-prefix relation on such paths.
+   * a CREATE, MKDIR, SYMLINK, REMOVE, RMDIR or RENAME answered with an error status has left the backend tree
+     exactly as it was (`failed_*_leaves_tree`, Absnfs/ServerFailed.lean);
    * hence after any history a LOOKUP — whether it hits the cache, hits a negative entry or misses — reports
      exactly the backend's existence, type, size, mode and fileid (`lookup_after_any_history`): caching is
      invisible in LOOKUP replies for every TTL, size and negative-cache setting.
@@ -27,6 +29,7 @@
 -/
 import Absnfs.ServerCoherent
 import Absnfs.ServerInvProcs
+import Absnfs.ServerFailed
 import Props.C21
 import Gen.Facts
 open Absnfs Absnfs.Server
@@ -130,6 +133,23 @@ theorem create_keeps_cinv (s : St) (c : Ctx) (a : Bytes) (h : CInv s) : CInv (pr
 theorem symlink_keeps_cinv (s : St) (c : Ctx) (a : Bytes) (h : CInv s) : CInv (procSymlink s c a).1 := procSymlink_cinv s c a h
 theorem write_keeps_cinv (s : St) (c : Ctx) (a : Bytes) (h : CInv s) : CInv (procWrite s c a).1 := procWrite_cinv s c a h
 theorem setattr_keeps_cinv (s : St) (c : Ctx) (a : Bytes) (h : CInv s) : CInv (procSetattr s c a).1 := procSetattr_cinv s c a h
+
+/-! ### "A failed request leaves the tree unchanged" — for every argument byte string, in every state satisfying
+    the invariant (hence after every history): a CREATE, MKDIR, SYMLINK, REMOVE, RMDIR or RENAME that is answered
+    with a non-zero status has not changed the backend. (The handlers fetch attributes after their backend call;
+    those fetches cannot fail, because the call does not change what Lstat shows at the directory.) -/
+theorem failed_create_leaves_tree (s s' : St) (c : Ctx) (a : Bytes) (st : Nat) (b : Rfc.Body) (h : CInv s)
+    (heq : procCreate s c a = (s', .res ⟨st, b⟩)) (hst : st ≠ 0) : s'.fs = s.fs := procCreate_failed s s' c a st b h heq hst
+theorem failed_mkdir_leaves_tree (s s' : St) (c : Ctx) (a : Bytes) (st : Nat) (b : Rfc.Body) (h : CInv s)
+    (heq : procMkdir s c a = (s', .res ⟨st, b⟩)) (hst : st ≠ 0) : s'.fs = s.fs := procMkdir_failed s s' c a st b h heq hst
+theorem failed_symlink_leaves_tree (s s' : St) (c : Ctx) (a : Bytes) (st : Nat) (b : Rfc.Body) (h : CInv s)
+    (heq : procSymlink s c a = (s', .res ⟨st, b⟩)) (hst : st ≠ 0) : s'.fs = s.fs := procSymlink_failed s s' c a st b h heq hst
+theorem failed_remove_leaves_tree (s s' : St) (c : Ctx) (a : Bytes) (st : Nat) (b : Rfc.Body) (h : CInv s)
+    (heq : procRemove s c a = (s', .res ⟨st, b⟩)) (hst : st ≠ 0) : s'.fs = s.fs := procRemove_failed s s' c a st b h heq hst
+theorem failed_rmdir_leaves_tree (s s' : St) (c : Ctx) (a : Bytes) (st : Nat) (b : Rfc.Body) (h : CInv s)
+    (heq : procRmdir s c a = (s', .res ⟨st, b⟩)) (hst : st ≠ 0) : s'.fs = s.fs := procRmdir_failed s s' c a st b h heq hst
+theorem failed_rename_leaves_tree (s s' : St) (c : Ctx) (a : Bytes) (st : Nat) (b : Rfc.Body) (h : CInv s)
+    (heq : procRename s c a = (s', .res ⟨st, b⟩)) (hst : st ≠ 0) : s'.fs = s.fs := procRename_failed s s' c a st b h heq hst
 
 /-- non-vacuity: the premises of `new_server_cinv` are met by a concrete server state -/
 def demoState : St :=
